@@ -637,6 +637,7 @@ func runC14(r *Report, p *Program) {
 	c14R5(h)
 	selectionTables(h, "R6")
 	c14Trace(h)
+	c14R8(h)
 }
 
 // c14R5: who may write the counters, and where.
